@@ -29,6 +29,7 @@ import numpy as np
 import z3
 
 from sx.arr import SArr
+from sx.rt import reraise_model_gap  # noqa: F401
 from sx.rt import And, Implies, Not, Or, SBool, SInt, SReal, Unsupported, cur, int_shim, same_value
 
 import funtracks.data_model.tracks as _tracks_mod
@@ -171,6 +172,7 @@ def geff_harness(ctx, cfg):
     except Unsupported:
         raise
     except Exception as e:
+        reraise_model_gap(e)
         exc = e
     finally:
         remove()
@@ -317,6 +319,7 @@ def geff_replay(f):
                                       edge_name_map=inp.get("edge_name_map"),
                                       node_features=inp.get("node_features"))
         except Exception as e:
+            reraise_model_gap(e)
             exc = e
         return _judge(inp, ob, cols, ecols, ids, edges, tr, exc)
     finally:
@@ -622,6 +625,7 @@ def csv_harness(ctx, cfg):
     except Unsupported:
         raise
     except Exception as e:
+        reraise_model_gap(e)
         exc = e
     finally:
         remove_csv()
@@ -703,6 +707,7 @@ def csv_replay(f):
             warnings.simplefilter("ignore")
             tr = tracks_from_df(df, node_name_map=dict(inp["name_map"]), features=inp.get("node_features"))
     except Exception as e:
+        reraise_model_gap(e)
         exc = e
     links = [(parents[i], ids[i]) for i in range(n) if inp["parents"][i][0] != "none"]
     ren = csv_renumbering(ids)
